@@ -286,7 +286,7 @@ func cmdCheck(args []string) {
 		}
 	}
 	vac["preconditions_checked_sat"] = nPre
-	if len(items) == 0 {
+	if len(items) == 0 && len(cfg.Passes) == 0 {
 		toolErrors = append(toolErrors, "vacuity: zero obligations generated for "+cfg.ID)
 	}
 	// planted false obligation must be refuted by the solver
@@ -321,6 +321,9 @@ func cmdCheck(args []string) {
 	for _, p := range cfg.Passes {
 		dfObls = append(dfObls, w.runPass(p, cfg, inSet)...)
 	}
+	if len(items) == 0 && len(dfObls) == 0 {
+		toolErrors = append(toolErrors, "vacuity: zero obligations generated for "+cfg.ID)
+	}
 
 	// ---- findings filter, replay, output ----
 	findings := loadFindings(filepath.Join(*verif, "known_findings.json"))
@@ -337,7 +340,7 @@ func cmdCheck(args []string) {
 	os.RemoveAll(replayDir)
 	total, discharged, violations, known := 0, 0, 0, 0
 	byBackend := map[string]int{}
-	var samples []map[string]interface{}
+	samples := []map[string]interface{}{}
 	var slow []map[string]interface{}
 	crossDisagree := 0
 	notCross := 0
@@ -403,11 +406,16 @@ func cmdCheck(args []string) {
 			fmt.Printf("   %s [%s] %s @%s:%d model=%s\n", o.Name, o.Status, o.Expr, shortFile(o.Pos.Filename), o.Pos.Line, compactModel(o.Model))
 		}
 	}
+	dfSamples := 0
 	for _, d := range dfObls {
 		total++
 		if d.OK {
 			discharged++
 			byBackend["dataflow"]++
+			if dfSamples < 6 && d.Detail != "" {
+				dfSamples++
+				samples = append(samples, map[string]interface{}{"obligation": d.Name, "guards": d.Detail, "at": d.At, "solver": "dataflow", "ms": 0})
+			}
 			continue
 		}
 		if kf, ok := open[d.Name]; ok {
